@@ -16,7 +16,9 @@ import (
 	"runtime"
 	"sort"
 	"strconv"
+	"strings"
 	"sync"
+	"sync/atomic"
 	"time"
 
 	"github.com/massnetorg/mass-core/wire"
@@ -70,6 +72,30 @@ type ltRec struct {
 	jitter int
 	pending *ltEvent // the commit line under construction (mu is held while it exists)
 	bad    string
+	// storage faults injected into the follower's steps and the worker's updates (0: none)
+	faultEvery int64
+	faultsLeft int64
+	callN      int64
+	injected   int64
+	wInUpdate  int32
+}
+
+// faultSite names the wallet functions on the stack of the storage call that is made to fail (diagnosis only).
+func faultSite() string {
+	pc := make([]uintptr, 40)
+	n := runtime.Callers(3, pc)
+	fr := runtime.CallersFrames(pc[:n])
+	var out []string
+	for {
+		f, more := fr.Next()
+		if strings.Contains(f.Function, "massnet.org/mass-wallet/masswallet") && !strings.Contains(f.Function, "/db.") && !strings.Contains(f.Function, "/db/") {
+			out = append(out, fmt.Sprintf("%s:%d", f.Function[strings.LastIndex(f.Function, "/")+1:], f.Line))
+		}
+		if !more || len(out) >= 6 {
+			break
+		}
+	}
+	return strings.Join(out, " < ")
 }
 
 func goid() int64 {
@@ -217,10 +243,46 @@ func (r *ltRec) hooks() dbwrap.Hooks {
 		OnCall: func(idx int64, kind string) error {
 			if kind == "rollback" {
 				r.mu.Lock()
-				r.add(ltEvent{Ev: "rollback", Role: r.role()})
+				role := r.role()
+				if role == "W" {
+					atomic.StoreInt32(&r.wInUpdate, 0)
+				}
+				r.add(ltEvent{Ev: "rollback", Role: role})
 				r.mu.Unlock()
+				return nil
 			}
-			return nil
+			if r.faultEvery <= 0 {
+				return nil
+			}
+			if kind == "begin" || kind == "commit" {
+				r.mu.Lock()
+				role := r.role()
+				r.mu.Unlock()
+				if role == "W" {
+					if kind == "begin" {
+						atomic.StoreInt32(&r.wInUpdate, 1)
+					} else {
+						defer atomic.StoreInt32(&r.wInUpdate, 0)
+					}
+				}
+			}
+			if atomic.LoadInt64(&r.faultsLeft) <= 0 || atomic.AddInt64(&r.callN, 1)%r.faultEvery != 0 {
+				return nil
+			}
+			// every storage call of the follower lies inside one of its steps; the worker's are taken inside its updates only
+			r.mu.Lock()
+			defer r.mu.Unlock()
+			role := r.role()
+			if role == "A" || (role == "W" && atomic.LoadInt32(&r.wInUpdate) == 0) || atomic.LoadInt64(&r.faultsLeft) <= 0 {
+				return nil
+			}
+			atomic.AddInt64(&r.faultsLeft, -1)
+			atomic.AddInt64(&r.injected, 1)
+			if role == "W" {
+				atomic.StoreInt32(&r.wInUpdate, 0)
+			}
+			r.add(ltEvent{Ev: "fault", Role: role, Op: kind, Err: faultSite()})
+			return dbwrap.ErrInjected
 		},
 	}
 }
@@ -335,6 +397,8 @@ func (r *ltRec) lines() []json.RawMessage {
 			}
 		case "rollback":
 			m["role"] = e.Role
+		case "fault":
+			m["role"], m["call"], m["site"] = e.Role, e.Op, e.Err
 		case "Extend", "Fork", "ForkSlow":
 			m["b"], m["p"], m["txs"] = *e.B, *e.P, e.Txs
 		case "SwitchTo":
